@@ -3,9 +3,38 @@ import json
 import os
 import sys
 
+import rules_det
+import rules_io
 import rules_lock
 
 PROPS = {
+    "C06": {
+        "rules": [rules_io.flushfirst, rules_io.window],
+        "explanation": "Cache-protocol clauses of the hand-written stream buffer, decided as path properties over the MIR of every Stream method: "
+                       "R-FLUSHFIRST (every window move - store to buf_offset_from_start, StreamBuffer::clear, refill_with - is preceded on every path by the ok successor of flush_changes, with no mark_modified in between) and "
+                       "R-WINDOW (after the window offset is stored, every path to any return, error exits included, passes clear or a successful refill).",
+        "not_decided": "equality with a byte vector for all call sequences and buffer sizes (values of pos/cap/offset/total_len across histories); set_len near u64::MAX",
+    },
+    "C12": {
+        "rules": [rules_io.errdisc(["io_read", "io_seek"], "read"), rules_io.window],
+        "explanation": "R-ERRDISC(read): every call site whose callee transitively performs backend read/seek and returns io::Result is classified by what happens to the Result (?, returned, matched with an Err arm that returns Err; not dropped, .ok(), unwrap_or, is_ok). "
+                       "R-WINDOW on error exits: after the buffer window offset moves, no error exit may leave the old window's bytes in place.",
+        "not_decided": "that the bytes returned equal the fault-free run (values); behaviour of std's read_exact/read_to_end themselves",
+    },
+    "C13": {
+        "rules": [rules_io.errdisc(["io_write", "io_flush", "io_seek"], "write"), rules_io.dirty, rules_io.flushreach],
+        "explanation": "R-ERRDISC(write): no io::Result of a call with backend write/flush/seek effect is dropped (one listed exception: Drop for Stream). "
+                       "R-DIRTY: typestate of the dirty marker Stream.flusher - on every path from the arm that took the marker to any return, either the ok successor of the write-back is passed or the marker is stored back; every Ok(n>0) path of Stream::write calls mark_modified. "
+                       "R-FLUSHREACH: every Ok path of each link of the flush chain reaches <F as Write>::flush, and Stream::flush writes back first.",
+        "not_decided": "no panic/hang after a failed write on half-updated state (C11's question); that the flushed bytes are the accepted bytes (values)",
+    },
+    "C18": {
+        "rules": [rules_det.short, rules_det.seekfirst, rules_det.nondet],
+        "explanation": "R-SHORT: each of the short-count primitives (Read::read/Write::write call sites) returns its count to the caller and advances its position by exactly that count, so results cannot depend on how the backend splits transfers; everything else uses exact-transfer forms. "
+                       "R-SEEKFIRST: raw backend I/O occurs only in Sector methods, the absolute-seek helpers and two listed sequential constructors; a Sector is only built after a successful seek(SeekFrom::Start). "
+                       "R-NONDET: clock reads confined to Timestamp::now (from insert_dir_entry) and touch; no iteration over randomly seeded hash containers; no pointer-to-integer casts.",
+        "not_decided": "equality of outcomes between a real file and memory, between buffer sizes, between V3 and V4 (values); Interrupted handling inside std",
+    },
     "C14": {
         "rules": [rules_lock.run],
         "explanation": "R-LOCK: all shared state is behind one RwLock<MiniAllocator<F>>; with a single lock and terminating critical sections, "
